@@ -478,7 +478,7 @@ func runC15(e *Env, r *core.Run) {
 // order divides c.  Only ECVRF_validate_key stands between this proof and
 // acceptance.  The key bytes are hashed exactly as delivered.
 func (c *c15Run) forge(pk, gammaString, alpha []byte, v10 bool) []byte {
-	H := model.ECVRFEncodeToCurve(pk, alpha)
+	H := model.ECVRFEncodeToCurveLib(pk, alpha)
 	k := c.g.Scalar()
 	var U, V curve.EdwardsPoint
 	U.MulBasepoint(curve.ED25519_BASEPOINT_TABLE, k)
@@ -652,7 +652,7 @@ func (c *c15Run) byzantine(v10 bool) {
 	ti := c15torsionPick[t.W(len(c15torsionPick))]
 	ord := c15TorsionOrder(ti)
 	x := edSecretScalar(c.sk)
-	H := model.ECVRFEncodeToCurve(c.pk, c.alpha)
+	H := model.ECVRFEncodeToCurveLib(c.pk, c.alpha)
 	var gamma, U, V curve.EdwardsPoint
 	gamma.Mul(H, x)
 	gamma.Add(&gamma, curve.EIGHT_TORSION[ti])
